@@ -18,6 +18,7 @@ from . import codec
 from .load import HarnessError
 
 VERIF = os.path.dirname(os.path.dirname(os.path.abspath(__file__)))
+OUT = os.environ.get("VERIF_OUT") or VERIF      # evidence/ and replays/ go here (mutant suite redirects it)
 MAX_SAMPLES = 6
 MAX_FAIL_KEEP = 40
 
@@ -258,7 +259,7 @@ def load_prop(prop_id):
 
 def write_replay(prop_id, sig, clause, detail, case, seed, tier, phase):
     import hashlib
-    d = os.path.join(VERIF, "replays", prop_id)
+    d = os.path.join(OUT, "replays", prop_id)
     os.makedirs(d, exist_ok=True)
     h = hashlib.sha1(sig.encode()).hexdigest()[:10]
     path = os.path.join(d, f"{h}.json")
@@ -387,8 +388,8 @@ def run(prop_id, tier, seed, nshards=None):
     ev = dict(property_id=prop_id, tier=tier, seed=int(seed), level=mod.LEVEL, coverage=coverage,
               assumptions=list(getattr(mod, "ASSUMPTIONS", [])), wall_s=round(wall, 2),
               violations=len(violations))
-    os.makedirs(os.path.join(VERIF, "evidence"), exist_ok=True)
-    with open(os.path.join(VERIF, "evidence", f"{prop_id}.json"), "w") as f:
+    os.makedirs(os.path.join(OUT, "evidence"), exist_ok=True)
+    with open(os.path.join(OUT, "evidence", f"{prop_id}.json"), "w") as f:
         json.dump(ev, f, indent=1)
         f.write("\n")
 
